@@ -158,6 +158,54 @@ CHECKS = {
         "Trusted: the membership function in props/c02_annotations.py; "
         "documented leniencies are excluded from the domain (str vs string "
         "iterables, union-typed arguments, None vs bool, x: T = None)."),
+    "C01": (
+        "Hypothesis program generation (loop-free fragment), differential "
+        "against CPython execution with an independent PEP 484 membership "
+        "oracle",
+        "Generated programs are executed (truncated before the first raising "
+        "statement) and analysed; every module-level name, instance attribute "
+        "and module-level call result must be admitted by its stub type.",
+        "Trusted: CPython 3.12; vlib/oracle_types.py (unmodelled library types "
+        "admit everything, counted); try bodies put the may-raise statement "
+        "first (known VM design limit)."),
+    "C03": (
+        "Hypothesis program assembly with injected mistakes; metamorphic "
+        "oracle over source edits (disable comments)",
+        "For every reported error and each of three edits the re-analysed "
+        "report must equal the old one minus exactly the targeted errors "
+        "(lines shifted) and the stub must be unchanged; 22 mistake shapes "
+        "incl. multi-line statements, decorated functions, implicit returns, "
+        "shared lines.",
+        "Trusted: error identity = (class, line, message with line numbers "
+        "masked)."),
+    "C04": (
+        "Hypothesis batches of programs analysed in worker processes under "
+        "varied PYTHONHASHSEED / history / loader reuse; byte-equality oracle",
+        "Stub text, printed error report and pickled stub (SHA-256) of every "
+        "program must be identical across 3-4 hash seeds x {batch order, "
+        "permuted order with interleaved unrelated analyses, reused loader, "
+        "fresh process}; reports sorted and duplicate-free.",
+        "Trusted: OS / locale / C++ runtime are not varied."),
+    "C06": (
+        "Hypothesis upstream programs + mechanically derived downstream module, "
+        "three import configurations; structural type-equality oracle",
+        "Every name the downstream module re-exports (constants, call results, "
+        "instance attributes, method results) must have the type the upstream "
+        "stub declares, with no import/pyi/attribute errors, identically for "
+        "pythonpath .pyi, imports-map .pyi and imports-map pickled AST.",
+        "Trusted: order-insensitive type normal form in props/c06_via_stub.py; "
+        "functions with TypeVars/overloads/user-class parameters are not "
+        "called downstream."),
+    "C20": (
+        "Hypothesis programs x (inferred stub | generated stub for the same "
+        "definitions); AST-strip round-trip oracle and per-definition "
+        "annotation comparison",
+        "merge_sources output must compile, equal the source after stripping "
+        "annotations/typing imports/TypeVars, keep existing annotations, take "
+        "inserted ones from the stub, and never insert bare Any/Never as a "
+        "return or variable annotation.",
+        "Trusted: Python's ast module for stripping and comparing; libcst "
+        "accepts both inputs."),
 }
 
 PENDING_REASON = ("check not built yet in this round; planned per DESIGN.md "
